@@ -6,5 +6,5 @@ package ast
 
 // The printers of the syntax tree call each other along the tree.
 //@ func (al *ArrayLiteral) String() (result string)
-//@   recursion structural on the syntax tree, whose depth the parser limits (nesting by parser.maxDepth, operator chains by parser.maxChain)
+//@   recursion structural on the syntax tree, whose depth the parser limits (nesting by parser.maxDepth, the height of every expression tree by parser.maxTreeDepth)
 //@   panics maybe
